@@ -328,7 +328,8 @@ Section Build.
       ].
     (* Properties.__call__(value): placeholders for declared names, then every member *)
   Definition build_members (k : kwds elem) (kvs : list (str * json)) : vres * list (str * rv) :=
-      let placeholders := map (fun np => (fst np, @None json))
+      (* keyed by the JSON name (source) since fix 6ad4bca; `prop.source or prop.name` *)
+      let placeholders := map (fun np => (match p_source (snd np) with [] => fst np | s => s end, @None json))
                               (match k_properties k with Some l => l | None => [] end) in
       let merged := dict_merge (dict_of_pairs placeholders)
                                (map (fun kv => (fst kv, Some (snd kv))) kvs) in
